@@ -176,7 +176,34 @@ def rn3(prog):
             errs.append("compress is not conditional on the compression switch")
     out.append(inst("RN", "%s:RN3:order" % fn.npath, VIOLATION if errs else OK, fn, None,
                     "; ".join(errs) if errs else "trim, compress (if enabled), trim, unique_or"))
+    # who may hand an element list to unique_or (sort + sign + intern, *no* trimming or compression):
+    # only `canonicalize` implementations, plus the explicitly reasoned exceptions
+    n_callers = 0
+    for f in prog.lib_fns:
+        sites = [cs for cs in f.terms.calls if cs.callee.name == "unique_or"] if any(
+            b["term"]["k"] == "call" for b in f.blocks) else []
+        if not sites:
+            continue
+        n_callers += 1
+        if f.name == "canonicalize":
+            ok, why = True, "canonicalize is the trimming/compressing front end of unique_or"
+        elif f.name in UNIQUE_OR_EXCEPTIONS:
+            ok, why = True, UNIQUE_OR_EXCEPTIONS[f.name]
+        else:
+            ok, why = False, ("%s (line %d) hands an element list straight to unique_or, which sorts and interns but neither "
+                              "trims nor compresses: equal subs / a single ⊤ prime would be stored as a distinct node; "
+                              "go through canonicalize" % (f.name, sites[0].line))
+        out.append(inst("RN", "%s:RN3:unique_or-caller" % f.npath, OK if ok else VIOLATION, f, sites[0].line, why))
+    if n_callers < 3:
+        raise CheckerError("RN3: only %d callers of unique_or found (expected canonicalize ×2, and_indep)" % n_callers)
     return out
+
+
+# callers of unique_or other than `canonicalize`, each confirmed by reading
+UNIQUE_OR_EXCEPTIONS = {
+    "and_indep": "and_indep builds the two-element node {(a, b), (¬a, ⊥)} for a, b non-constant (constants are "
+                 "handled by and's base cases before the vtree dispatch): subs differ and no prime is ⊤",
+}
 
 
 def rebuilt_check(prog, fn):
